@@ -230,7 +230,7 @@ theorem walk_of_valid (ctx : Ctx) (a b : List Rule) :
 
 theorem CtxOK.withPid {ctx : Ctx} {G0 : List Group} (h : CtxOK ctx G0) (pid : String) :
     CtxOK { ctx with pid := pid } G0 :=
-  ⟨h.g0_nodup, h.a_of_g0, h.a_addrs, h.b_fresh, h.b_inj, h.b_addrs⟩
+  ⟨h.g0_nodup, h.a_of_g0, h.a_addrs, h.b_fresh, h.b_inj, h.b_addrs, h.b_nonempty⟩
 
 theorem GInv.withPid {ctx : Ctx} {G0 G : List Group} {st : PSt} (h : GInv ctx G0 G st) (pid : String) :
     GInv { ctx with pid := pid } G0 G st :=
